@@ -12,11 +12,11 @@ CHECK = dict(
              'signature (section, vCPUs, threads, keys, failure rate, cool-down, lifespan, log2 buckets of expiries / acquirers parked behind a '
              'recycler / failed constructions / recyclers that had to wait / acquires refused in the cool-down)',
         floors=dict(quick=dict(evaluations=30, events=50000, distinct=12,
-                               cov={'C_OBJCACHE_EXPIRE': 200, 'C_OBJCACHE_RECYCLE_WAIT': 2000, 'C_OBJCACHE_CTOR_FAIL': 100, 'recycler_waited_for_holders': 1000,
+                               cov={'C_OBJCACHE_EXPIRE': 40, 'C_OBJCACHE_RECYCLE_WAIT': 2000, 'C_OBJCACHE_CTOR_FAIL': 100, 'recycler_waited_for_holders': 1000,
                                     'acquired_while_held_by_other': 5000, 'moved_out_objects': 300, 'ctor_slept': 300, 'cooldown_probe_ok': 20,
                                     'destroyed': 2000}),
                     thorough=dict(evaluations=160, events=600000, distinct=60,
-                                  cov={'C_OBJCACHE_EXPIRE': 5000, 'C_OBJCACHE_RECYCLE_WAIT': 50000, 'C_OBJCACHE_CTOR_FAIL': 8000, 'recycler_waited_for_holders': 25000,
+                                  cov={'C_OBJCACHE_EXPIRE': 500, 'C_OBJCACHE_RECYCLE_WAIT': 50000, 'C_OBJCACHE_CTOR_FAIL': 8000, 'recycler_waited_for_holders': 25000,
                                        'acquired_while_held_by_other': 100000, 'moved_out_objects': 8000, 'ctor_slept': 8000, 'cooldown_probe_ok': 200,
                                        'destroyed': 50000})),
         assumptions=['x86-TSO hardware; weaker orderings only through TSan',
